@@ -346,7 +346,9 @@ def expr_depth(t) -> int:
 
 # ============================================================================ docstrings
 def docstrings():
-    item = st.tuples(st.sampled_from(PARAM_NAMES + ("x", "A", "f")), st.integers(0, len(DOC_ANNOTATIONS) - 1), st.integers(0, len(DOC_DESCS) - 1)).map(list)
+    # documented names include members that are aliases nobody can resolve (`thing`: import of a missing module, `P`,
+    # `ospath`: prelude imports of modules that are not loaded)
+    item = st.tuples(st.sampled_from(PARAM_NAMES + ("x", "A", "f", "thing", "P", "ospath")), st.integers(0, len(DOC_ANNOTATIONS) - 1), st.integers(0, len(DOC_DESCS) - 1)).map(list)
     section = st.tuples(st.integers(0, len(DOC_KINDS) - 1), st.lists(item, min_size=1, max_size=2)).map(list)
     return st.fixed_dictionaries({"sum": st.integers(0, len(DOC_SUMMARIES) - 1), "sections": st.lists(section, max_size=3)})
 
@@ -789,6 +791,8 @@ class _ModRenderer:
     def cls(self, indent: int, stmt, in_class: str | None) -> None:
         _, name, spec = stmt
         s = self.src
+        if name == in_class and "init-param-names" in _CTX["steer"]:
+            name += "_"  # known finding: inside `__init__` the class name designates the class, not its member of that name
         decos = [self._deco(d, CLASS_DECOS) for d in spec["decos"]]
         if self.importable:
             decos = [d for d in decos if d != "dataclasses.dataclass"]
